@@ -1,1 +1,51 @@
-//! (filled in below)
+//! C04 units that do not fit the generated proof_for_contract shape.
+use super::lc;
+use super::rd;
+use super::spec;
+
+/// Binomial::new for every (n, p): contract + the internal `f64_to_u64` assertion. Plain loop-free harness (complete):
+/// the constructor calls std's f64::powf, whose CBMC model writes errno, which the contract instrumentation rejects.
+#[kani::proof]
+#[kani::stub(f64::powf, lc::pow)]
+#[kani::stub(f64::sqrt, lc::sqrt_c)]
+#[kani::stub(f64::floor, lc::floor)]
+#[kani::stub(libm::exp, lc::exp)]
+#[kani::stub(libm::expf, lc::expf)]
+fn c04_binomial_new() {
+    let n: u64 = kani::any();
+    let p: f64 = kani::any();
+    let r = rd::Binomial::new(n, p);
+    assert!(spec::binomial_new_post(n, p, &r));
+    kani::cover!(r.is_ok(), "Ok reachable");
+    kani::cover!(r.is_err(), "Err reachable");
+}
+
+/// Geometric::new: the Err/Ok decision is taken before the squaring loop; the loop is cut after one iteration
+/// (partial correctness: termination of the loop and k <= 63 are NOT established here).
+#[kani::proof]
+#[kani::unwind(1)]
+fn c04_geometric_new_classification() {
+    let p: f64 = kani::any();
+    let r = rd::Geometric::new(p);
+    assert!(spec::geometric_new_post(p, &r));
+    kani::cover!(r.is_ok(), "Ok reachable");
+    kani::cover!(r.is_err(), "Err reachable");
+}
+
+macro_rules! pert_with_mode {
+    ($name:ident, $F:ty) => {
+        /// PertBuilder::with_mode for every (min, max, shape, mode).
+        #[kani::proof]
+        #[kani::stub(libm::sqrt, lc::sqrt_c)]
+        #[kani::stub(libm::sqrtf, lc::sqrtf_c)]
+        fn $name() {
+            let (min, max, shape, mode): ($F, $F, $F, $F) = (kani::any(), kani::any(), kani::any(), kani::any());
+            let r = rd::Pert::<$F>::new(min, max).with_shape(shape).with_mode(mode);
+            assert!(spec::pert_with_mode_post(min, max, shape, mode, &r));
+            kani::cover!(r.is_ok(), "Ok reachable");
+            kani::cover!(r.is_err(), "Err reachable");
+        }
+    };
+}
+pert_with_mode!(c04_pert_with_mode_f64, f64);
+pert_with_mode!(c04_pert_with_mode_f32, f32);
